@@ -4,6 +4,8 @@
 //!   ohharness exec                                   execute the operation lines read on stdin
 mod ast;
 mod c14;
+mod c15;
+mod cal;
 mod c19;
 mod c20;
 mod ev;
@@ -23,8 +25,12 @@ fn exec_line(line: &str) -> String {
     let t0 = std::time::Instant::now();
     let res = if op.starts_with("et.") {
         c19::exec(op, args)
-    } else if op.starts_with("ev.") {
+    } else if ["ev.", "c01.", "c02.", "c03.", "c04.", "c08.", "c16.", "c17."].iter().any(|p| op.starts_with(p)) {
         ev::exec(op, args)
+    } else if op.starts_with("cal.") {
+        c15::exec(op, args)
+    } else if op.starts_with("chr.") {
+        cal::exec(op, args)
     } else if op.starts_with("sch.") {
         c14::exec(op, args)
     } else if op.starts_with("usv.") {
@@ -58,8 +64,11 @@ fn main() {
             match suite {
                 "c19" => c19::gen(tier, &mut rng, &mut emit),
                 "ev" => ev::gen(tier, &mut rng, &mut emit),
+                "c01" | "c02" | "c03" | "c04" | "c08" | "c16" | "c17" | "c17i" => ev::gen_for(suite, tier, &mut rng, &mut emit),
                 "c20" => c20::gen(tier, &mut rng, &mut emit),
                 "c14" => c14::gen(tier, &mut rng, &mut emit),
+                "c15" => c15::gen(tier, &mut rng, &mut emit),
+                "cal" => cal::gen(tier, &mut rng, &mut emit),
                 _ => {
                     eprintln!("unknown suite {suite}");
                     std::process::exit(2);
